@@ -307,10 +307,10 @@ def deserialize_address(address, encoding=None, network=None):
             prefix = address[:address.rfind('1')]
             networks = network_by_value('prefix_bech32', prefix)
             witness_type = 'segwit' if not witver else 'taproot'
-            if len(public_key_hash) == 20:
-                script_type = 'p2wpkh'
+            if witver:
+                script_type = 'p2tr'
             else:
-                script_type = 'p2wsh' if not witver else 'p2tr'
+                script_type = 'p2wpkh' if len(public_key_hash) == 20 else 'p2wsh'
             return {
                 'address': address,
                 'encoding': 'bech32',
@@ -802,8 +802,9 @@ class Address(object):
         script_type = addr_dict['script_type']
         witness_type = addr_dict['witness_type']
         return Address(hashed_data=public_key_hash_bytes, prefix=prefix, script_type=script_type,
-                       witness_type=witness_type, compressed=compressed, encoding=addr_dict['encoding'], depth=depth,
-                       change=change, address_index=address_index, network=network, network_overrides=network_overrides)
+                       witness_type=witness_type, witver=addr_dict['witver'] or 0, compressed=compressed,
+                       encoding=addr_dict['encoding'], depth=depth, change=change, address_index=address_index,
+                       network=network, network_overrides=network_overrides)
 
     def __init__(self, data='', hashed_data='', prefix=None, script_type=None,
                  compressed=None, encoding=None, witness_type=None, witver=0, depth=None, change=None,
